@@ -47,6 +47,7 @@ func (vc *VC) reset() {
 	vc.callSyms = map[string][]Term{}
 	vc.callArgs = map[string][]cval{}
 	vc.callCount = map[string]int{}
+	vc.argCount = map[string]int{}
 	vc.callReach = map[string]Term{}
 	vc.curReach = "true"
 	vc.callSymTypes = map[string][]CT{}
